@@ -10,7 +10,7 @@ for c in man['checks']:
     ev={}
     try: ev=json.load(open(f'{V}/evidence/{pid}.json'))
     except Exception: pass
-    nf=len(ev.get('functions_under_contract',[]) or [])
+    nf=len((ev.get('coverage') or {}).get('functions_under_contract',[]) or ev.get('functions_under_contract',[]) or [])
     note=c.get('level_note','') or c['level_claimed'].get('text','')
     rows.append(f"| {pid} | {len(lk.get('obligations') or [])} | {len(lk.get('unclaimed') or [])} | {len(lk.get('dead_paths') or [])} | {nf} | {note.replace('|','/')} |")
 ptable='\n'.join(rows)
@@ -31,7 +31,7 @@ for n in sorted(os.listdir(f'{V}/seeded')):
     r=res.get(n)
     if not r: srows.append(f"| {n} | {one}… | not run | |"); continue
     if r[0]=='1':
-        ob=r[2].split('.json')[0].lstrip('_')
+        ob=re.sub(r'^replayed=\d+ ','',r[2]).split('.json')[0].lstrip('_')
         srows.append(f"| {n} | {one}… | caught ({r[1]} violation(s)) | `{ob}` |")
     else:
         srows.append(f"| {n} | {one}… | **missed** | {missing.get(n,'')} |")
